@@ -30,13 +30,14 @@ function C(e){ return (e instanceof TypeError) ? "TE" : e; }
 function R(k){ return k===0 ? G.next(1) : k===1 ? G["throw"](1) : G["return"](1); }
 function* IG(id, items){ try { for (var i=0;i<items.length;i++){ var r = yield items[i]; LS("I"+id+"n"+SV(r)); } }
   finally { LS("I"+id+"f"); } return "R"+id; }
-function MK(id, isGen, hasRet, thr, items){
+function MK(id, isGen, ret, thr, items){
   if (isGen) return IG(id, items);
   var pos = 0;
   var o = { next: function(v){ LS("I"+id+"n"+SV(v)); if (pos < items.length) return {value: items[pos++], done:false};
                                return {value:"R"+id, done:true}; } };
   o[Symbol.iterator] = function(){ return this; };
-  if (hasRet) o["return"] = function(v){ LS("I"+id+"r"+SV(v)); return {value:v, done:true}; };
+  if (ret===1) o["return"] = function(v){ LS("I"+id+"r"+SV(v)); return {value:v, done:true}; };
+  if (ret===2) o["return"] = function(v){ LS("I"+id+"r"+SV(v)); throw "X"+id; };
   if (thr===1) o["throw"] = function(e){ LS("I"+id+"t"+SV(e)); throw e; };
   if (thr===2) o["throw"] = function(e){ LS("I"+id+"t"+SV(e)); return {value:"T"+id, done:true}; };
   if (thr===3) o["throw"] = function(e){ LS("I"+id+"t"+SV(e)); return {value:"C"+id, done:false}; };
